@@ -102,6 +102,8 @@ def _scenario(args):
             os.makedirs(os.path.join(root, 'work'))
             t = sc['trouble']
             src = GOOD
+            if sc.get('incdefs'):
+                src = 'include GD32VF103.asm\n' + src + 'dw GPIO_BASE_ADDR_C\n'
             if sc['incdir']:
                 with open(os.path.join(root, 'inc', 'defs.asm'), 'w') as f:
                     f.write('DEFK = 7\n')
@@ -126,6 +128,10 @@ def _scenario(args):
                 argv += [['-l', 'out.lab']]
             if sc['compress']:
                 argv += [['-c']]
+            if sc.get('verbose'):
+                argv += [[rng.choice(['-v', '--verbose'])]]
+            if sc.get('incdefs'):
+                argv += [['--include-definitions']]
             if sc['incdir']:
                 argv += [['-i', '../nodir' if t == 'bad-incdir' else '../inc']]
             offset = None
@@ -163,7 +169,8 @@ def _scenario(args):
             if code == 0 and exit_exp == 0:
                 labels, consts = {}, {}
                 os.chdir(cwd)
-                rec = impl.assemble_recorded(main, compress=sc['compress'], include_dirs=[os.path.join(root, 'inc')] if sc['incdir'] else None,
+                incs = ([os.path.join(root, 'inc')] if sc['incdir'] else []) + ([os.path.join(impl.REPO, 'bronzebeard', 'definitions')] if sc.get('incdefs') else [])
+                rec = impl.assemble_recorded(main, compress=sc['compress'], include_dirs=incs or None,
                                              labels=labels, constants=consts)
                 if state['out'] == 'new' and (rec['status'] != 'ok' or open(paths['out'], 'rb').read() != rec['out']):
                     problems.append('OutputIsProgram')
